@@ -1,3 +1,4 @@
+import Grexv.Lemmas.RunShape
 import Grexv.Lemmas.SearchV
 import Grexv.Model.RegExp
 import Grexv.Lemmas.Lines
@@ -101,7 +102,9 @@ example : SameButAnchors { noStart := true, verb := true } { noEnd := true, verb
 
 /-- **C08 (language level) for the model, all inputs** the pattern printed with one anchor disabled is accepted by the
 model of `Regex::new` (the body can never be mistaken for a flag group: `Expr.safe`) and matches in full exactly the
-strings the fully anchored pattern matches -/
+strings the fully anchored pattern matches.  Restrictions (`PlainPrintCI`): every subset of the class options, capturing groups, `-e`
+and `-i` are free; no `-r` (there: `C05.repetitions_language_exact`, whose right-hand side does not mention the anchors), no verbose mode
+(`C06.verbose_same_language` carries it over), no colour, no surrogate-pair conversion -/
 theorem one_anchor_same_language (cfg : Config) (hp : PlainPrintCI cfg) (ns ne : Bool) (hns : (ns && ne) = false)
     (env : Env) (ws : List Str) (stA st0 : Stages)
     (hA : regExpFrom (withAnchors cfg ns ne) env ws = .ok stA) (h0 : regExpFrom (withAnchors cfg false false) env ws = .ok st0)
@@ -159,10 +162,10 @@ theorem search_spans_with_end_anchor (cfg : Config) (hp : PlainPrintCI cfg) (hci
   rw [fmtRegExp_plainCI_eq cfg hp, hci, hns, hne']
   exact this
 
-/-- **C08 with `-r`** (`RepPrint`: `-r`, any class options, plain printing, one anchor disabled; case-sensitive here): the returned text is
-accepted and the compiled pattern matches a string in full iff an accepting path of the minimised automaton spells it — whichever anchor
-is disabled (`C05.repetitions_language_exact` does not mention the anchors); and with the end anchor in place `Regex::find` returns
-every non-empty test case whole -/
+/-- **C08, the search half, with `-r`** (`RepPrint`: `-r`, any class options, plain printing; start anchor disabled, end anchor in place;
+case-sensitive here): the returned text is accepted and `Regex::find` returns every non-empty test case whole.  (That the full-match
+language does not depend on which single anchor is disabled is `C05.repetitions_language_exact`, whose right-hand side does not mention
+the anchors.) -/
 theorem search_spans_with_end_anchor_repetitions (cfg : Config) (hp : RepPrint cfg) (hci : cfg.ci = false)
     (hns : cfg.noStart = true) (hne' : cfg.noEnd = false)
     (env : Env) (ws : List Str) (st : Stages)
@@ -297,6 +300,43 @@ theorem anchors_only_where_requested_repetitions (cap esc i ns ne : Bool) (e : E
   split at hp
   · simp only [List.mem_singleton] at hp; subst hp; exact noAnchor_of_fragC _ hb.2
   · exact noAnchor_of_fragC p (hb.1 p hp)
+
+theorem noAnchor_topItems (cap esc : Bool) (e : Expr) : ∀ p ∈ topItems cap esc e, Pat.NoAnchor p := by
+  intro p hp
+  have hb := Expr.both_frag cap esc e
+  unfold topItems at hp
+  split at hp
+  · simp only [List.mem_singleton] at hp; subst hp; exact noAnchor_of_frag _ hb.2
+  · exact noAnchor_of_frag p (hb.1 p hp)
+
+theorem noAnchor_topItemsR (cap esc : Bool) (e : Expr) (hwf : e.WFR) : ∀ p ∈ topItemsR cap esc e, Pat.NoAnchor p := by
+  intro p hp
+  have hb := Expr.bothR_fragC cap esc e hwf
+  unfold topItemsR at hp
+  split at hp
+  · simp only [List.mem_singleton] at hp; subst hp; exact noAnchor_of_fragC _ hb.2
+  · exact noAnchor_of_fragC p (hb.1 p hp)
+
+/-- **C08 (only the requested anchors), on a run, all inputs**: in each of the four printing modes — plain or verbose, without or with
+repetition conversion; every subset of the class options, `-i`, capturing groups, `-e`, any anchors — the pattern the regex crate builds
+from what `build()` returns is `^` iff the start anchor is enabled, items without any anchor, `$` iff the end anchor is enabled -/
+theorem run_anchors_only_where_requested (cfg : Config) (env : Env) (ws : List Str) (st : Stages)
+    (h : regExpFrom cfg env ws = .ok st) (hseg : ∀ w ∈ storedCases cfg env ws, SegOK env w)
+    (hlen : ∀ w ∈ storedCases cfg env ws, (clusterOfPieces (env.segOf w)).length ≤ 1000) (hws : ws ≠ [])
+    (hmode : PlainPrintNA cfg ∨ VerbosePrintNA cfg ∨ RepPrintNA cfg ∨ RepVerbose cfg) :
+    ∃ its, (∀ p ∈ its, Pat.NoAnchor p) ∧
+      Spec.parse (fmtRegExp cfg st.finalAst) = some (⟨cfg.ci, cfg.verb⟩, Spec.catList (preA cfg.noStart ++ (its ++ postA cfg.noEnd))) := by
+  have hlen' : ∀ w ∈ storedCases cfg env ws, (subPieces (env.segOf w)).length ≤ 1000 := fun w hw => by
+    have := hlen w hw; rwa [clusterOfPieces_eq, List.length_map] at this
+  rcases hmode with hp | hp | hp | hp
+  · obtain ⟨_, hparse⟩ := run_shape_plain cfg hp env ws st h hseg hws
+    exact ⟨_, noAnchor_topItems _ _ _, by rw [hparse, hp.verb]⟩
+  · obtain ⟨_, hparse⟩ := run_shape_verbose cfg hp env ws st h hseg hws
+    exact ⟨_, noAnchor_topItems _ _ _, by rw [hparse, hp.verb]⟩
+  · obtain ⟨hwfs, hparse⟩ := run_shape_rep cfg hp env ws st h hseg hlen' hws
+    exact ⟨_, noAnchor_topItemsR _ _ _ (Expr.WFS.toWFR _ hwfs), by rw [hparse, hp.verb]⟩
+  · obtain ⟨hwfs, hparse⟩ := run_shape_rep_verbose cfg hp env ws st h hseg hlen' hws
+    exact ⟨_, noAnchor_topItemsR _ _ _ (Expr.WFS.toWFR _ hwfs), by rw [hparse, hp.verb]⟩
 
 example : PlainPrintCI { noStart := true } := ⟨rfl, rfl, rfl, rfl, rfl⟩
 
